@@ -16,6 +16,9 @@ def run(ctx):
                        cells_cfg_quick="fsmtab-c19.cfg")
     # manager level: the same property on a real manager (messages, API calls, transport callbacks)
     stages.mgr_family(ctx, ["C19."], ["all"], lambda s: s["stim"]["kind"] in ("SendVoucher", "SendVoucherResult", "UpdateValidation") or s["stim"]["msg"]["v"] != "", quick_n=3000, model=not ctx.quick(), sims=False, invariants=["M_C19_Append"], keep=lambda l: any(k in l for k in ('"kind":"SendVoucher"', '"kind":"SendVoucherResult"', '"kind":"Voucher"', '"kind":"VoucherResult"', '"kind":"UpdateValidation"')))
+    # two-node replays of Sys.tla behaviours on two real managers: C19 rules of SysJudge and of the manager judge on every step of either node
+    from props import c01 as _c01
+    _c01.sys_replay(ctx, prefixes=["C19."], n_quick=10, n_thorough=60)
     if not ctx.quick():
         # the repository's own 275 tests, run with the trace hook: every transition they execute is judged
         stages.repo_suite_traces(ctx, ["C19."])
